@@ -91,7 +91,7 @@ DestEnd(s, i, depth) ==
 RECURSIVE AngleDestEnd(_, _)
 AngleDestEnd(s, i) ==
   LET c == At(s, i) IN
-  IF c = -1 \/ c = LF \/ c = LT THEN 0
+  IF c = -1 \/ IsEOLb(c) \/ c = LT THEN 0      \* no line ending (LF or CR) inside <...>
   ELSE IF c = BS /\ IsPunct(At(s, i+1)) THEN AngleDestEnd(s, i+2)
   ELSE IF c = GT THEN i + 1
   ELSE AngleDestEnd(s, i+1)
